@@ -154,7 +154,7 @@ fcppt::container::raw_vector::object<T, A>::object(In const _begin, In const _en
 template <typename T, typename A>
 template <typename In>
 fcppt::container::raw_vector::object<T, A>::object(In const _begin, In const _end, A const &_alloc)
-    : impl_(_alloc)
+    : object(_alloc)
 {
   this->insert(this->end(), _begin, _end);
 }
